@@ -29,6 +29,8 @@ type c09Case struct {
 	Fault  string `json:"fault"`            // complete | abort | stall | garbage
 	Order  string `json:"order"`            // faulty-first | valid-first
 	Repeat int    `json:"repeat,omitempty"` // number of faulty clients (thorough: bursts)
+	// CheckEvery: the well-behaved clients come after every n-th faulty client only (0: after each)
+	CheckEvery int `json:"check_every,omitempty"`
 }
 
 func (c c09Case) String() string {
@@ -52,7 +54,7 @@ func c09Allowed(config, cred string) bool {
 	switch cred {
 	case "right":
 		return true
-	case "wrongname", "intermediate-name":
+	case "wrongname", "intermediate-name", "name-upper", "name-title":
 		return config == "ca"
 	}
 	return false
@@ -70,6 +72,14 @@ func c09ClientConfig(p *certs.PKI, cred string) *tls.Config {
 		return p.ClientConfig(p.Client(c09Rule, p.Root, true))
 	case "wrongname":
 		return p.ClientConfig(p.Client("someone-else", p.Root, false))
+	case "name-upper": // the rule's name in another letter case is another name
+		return p.ClientConfig(p.Client(strings.ToUpper(c09Rule), p.Root, false))
+	case "name-title":
+		return p.ClientConfig(p.Client(strings.ToUpper(c09Rule[:1])+c09Rule[1:], p.Root, false))
+	case "just-expired": // expired a few seconds ago
+		return p.ClientConfig(p.ClientValidity(c09Rule, p.Root, time.Now().Add(-time.Hour), time.Now().Add(-5*time.Second)))
+	case "not-yet-valid": // valid from a few seconds in the future
+		return p.ClientConfig(p.ClientValidity(c09Rule, p.Root, time.Now().Add(20*time.Second), time.Now().Add(time.Hour)))
 	case "intermediate-name":
 		// the leaf has another name; only its issuer (an intermediate CA) carries the rule name
 		return p.ClientConfig(p.Client("someone-else", p.Intermediate, false))
@@ -323,6 +333,9 @@ func evalC09(c c09Case) *Failure {
 	for i := 0; i < c.repeat(); i++ {
 		if f := faulty(i); f != nil {
 			return f
+		}
+		if c.CheckEvery > 1 && (i+1)%c.CheckEvery != 0 && i != c.repeat()-1 {
+			continue
 		}
 		// after each faulty client - and while a staller is still connected - others are served
 		conn, f := validTLS(fmt.Sprintf("after faulty client %d", i))
@@ -686,9 +699,26 @@ product:
 	}
 	h.Col.Exhaustive("config x credential x fault x order (192 scenarios)", complete)
 
+	// credentials at the edge: the right name in another letter case, a certificate that expired seconds ago or is not valid yet
+	{
+		k := 0
+		for _, cfg := range configs {
+			for _, cred := range []string{"name-upper", "name-title", "just-expired", "not-yet-valid"} {
+				k++
+				if k%h.NShards != h.Shard {
+					continue
+				}
+				c := c09Case{Config: cfg, Cred: cred, Fault: "complete", Order: "faulty-first"}
+				h.Col.Case(true, []byte(c.String()), "config:"+cfg, "cred:"+cred, "edge-credentials")
+				h.Report("c09.scenario", c, evalC09(c))
+			}
+		}
+	}
+
 	// many failed handshakes on ONE running server, a well-behaved client after each
 	long := []c09Case{{Config: "rule", Cred: "none", Fault: "complete", Order: "faulty-first", Repeat: 70}, {Config: "ca", Cred: "foreign", Fault: "complete", Order: "valid-first", Repeat: 70},
 		{Config: "ca", Cred: "plaintext", Fault: "garbage", Order: "faulty-first", Repeat: 70}, {Config: "rule+password", Cred: "right", Fault: "abort", Order: "faulty-first", Repeat: 70}}
+	long = append(long, c09Case{Config: "ca", Cred: "plaintext", Fault: "garbage", Order: "faulty-first", Repeat: 1100, CheckEvery: 100})
 	for i, c := range long {
 		if i%h.NShards != h.Shard {
 			continue
